@@ -59,6 +59,9 @@ def _python_crosscheck(prop):
                 e = json.loads(line)
                 if e.get("res") != "ok":
                     continue
+                an, ad = e["av"]
+                if not (ad > 0 and -ad < an <= ad and Fraction(an, ad).denominator == ad):
+                    continue   # a non-canonical operand: the after-effect of an earlier violation (TLC skips it in limit_bad too)
                 want = _norm(Fraction(e["av"][0], e["av"][1]).limit_denominator(e["m"]))
                 n, d = e["out"]
                 checked += 1
